@@ -13,7 +13,9 @@ from vpanalyze import GenIndex, failures, fsig, LABEL_RE
 PROPS = [json.loads(l) for l in open(os.path.join(D.VERIF, 'properties.jsonl'))]
 PROP_IDS = [p['id'] for p in PROPS]
 CACHE = os.path.join(D.BUILD, 'cache')
-EVID = os.path.join(D.VERIF, 'evidence')
+# campaigns on scratch copies of /repo (tools/run_seeded.py with VP_SEED_SCRATCH=1) write their evidence elsewhere, so that
+# evidence/ only ever holds what a run against /repo itself wrote
+EVID = os.environ.get('VP_EVIDENCE_DIR') or os.path.join(D.VERIF, 'evidence')
 REPLAY = os.path.join(D.VERIF, 'replay_out')
 
 # failures of these kinds inside a verified function body are panics / overflows / non-termination: property C03
